@@ -50,6 +50,7 @@ def parseAct (a th : Nat) (name detail : String) : Option Act :=
        | _ => none)
   | "txn.locked" => some (.txnLocked t)
   | "txn.lock.begin" => some (.lockBegin t)
+  | "ddl.create.begin" => some (.lockBegin t)
   | "vm.commit.begin" => some (.commitBegin t)
   | "vm.commitA" => some (.commitA t)
   | "vm.append" => some (.append t)
@@ -171,7 +172,7 @@ def renderEv (before after : Sys) (a : Act) : String :=
   | .unpin _ e => "vm.unpin " ++ toString e
   | .txnPinned _ _ _ => "txn.pinned"
   | .txnLocked _ => "txn.locked"
-  | .lockBegin _ => "txn.lock.begin"
+  | .lockBegin _ => "lock.begin"
   | .commitBegin th => "vm.commit.begin " ++ opsStr (getTh after th).ops
   | .commitA _ => "vm.commitA " ++ toString before.k.epoch
   | .append _ => "vm.append"
